@@ -26,17 +26,18 @@ type SrvCfg struct {
 	Transfer    int
 	MaxFileSize int64
 	MaxHandles  int
+	Async       bool // ExportOptions.Async ("allow async writes"): must not weaken what a FILE_SYNC reply promises
 }
 
 func (c SrvCfg) String() string {
-	return fmt.Sprintf("attrTTL=%v attrSize=%d dirCache=%v neg=%v ro=%v squash=%s xfer=%d maxfile=%d", c.AttrTTL, c.AttrSize,
-		c.DirCache, c.Neg, c.ReadOnly, c.Squash, c.Transfer, c.MaxFileSize)
+	return fmt.Sprintf("attrTTL=%v attrSize=%d dirCache=%v neg=%v ro=%v squash=%s xfer=%d maxfile=%d async=%v", c.AttrTTL, c.AttrSize,
+		c.DirCache, c.Neg, c.ReadOnly, c.Squash, c.Transfer, c.MaxFileSize, c.Async)
 }
 
 func (c SrvCfg) opts() absnfs.ExportOptions {
 	o := absnfs.ExportOptions{ReadOnly: c.ReadOnly, Squash: c.Squash, TransferSize: c.Transfer, MaxFileSize: c.MaxFileSize,
 		AttrCacheTimeout: c.AttrTTL, AttrCacheSize: c.AttrSize, CacheNegativeLookups: c.Neg, NegativeCacheTimeout: c.AttrTTL,
-		EnableDirCache: c.DirCache, DirCacheTimeout: c.AttrTTL, MaxWorkers: 2}
+		EnableDirCache: c.DirCache, DirCacheTimeout: c.AttrTTL, MaxWorkers: 2, Async: c.Async}
 	return o
 }
 
